@@ -91,16 +91,28 @@ def parse_model_text(txt):
 
 
 class Prover:
-    def __init__(self, timeout_ms=20000, ext_timeout_s=60, portfolio=True):
+    def __init__(self, timeout_ms=20000, ext_timeout_s=60, portfolio=True, budget_s=None):
         self.timeout_ms = timeout_ms
+        # wall-clock budget for all queries of this prover (one shape): once it is used up every further obligation is
+        # reported `unknown` (inconclusive) instead of being attempted -- a check must end in bounded time
+        self.deadline = (time.time() + budget_s) if budget_s else None
         self.ext_timeout_s = ext_timeout_s
         self.portfolio = portfolio
         self.stats = dict(queries=0, proved=0, cex=0, unknown=0, solver_time=0.0, sliced=0, portfolio_calls=0,
                           by_solver={}, batched=0)
 
     # ------------------------------------------------------------------
+    def _left_ms(self, timeout_ms):
+        if self.deadline is None:
+            return timeout_ms
+        return max(0, min(timeout_ms, int((self.deadline - time.time()) * 1000)))
+
     def _z3py(self, premises, claim, timeout_ms):
         s = z3.Solver()
+        timeout_ms = self._left_ms(timeout_ms)
+        if timeout_ms < 50:
+            self.stats["budget_exhausted"] = self.stats.get("budget_exhausted", 0) + 1
+            return z3.unknown, s, 0.0
         s.set("timeout", int(timeout_ms))
         s.add(*premises)
         s.add(z3.Not(claim))
@@ -118,17 +130,18 @@ class Prover:
         with os.fdopen(fd, "w") as f:
             f.write(txt)
         cmds = {}
+        ext_s = max(1, min(self.ext_timeout_s, self._left_ms(10**9) // 1000))
         if Z3_BIN:
-            cmds["z3-4.8.12"] = [Z3_BIN, f"-T:{self.ext_timeout_s}", fn]
+            cmds["z3-4.8.12"] = [Z3_BIN, f"-T:{ext_s}", fn]
         if CVC5_BIN:
-            cmds["cvc5-1.0.3"] = [CVC5_BIN, f"--tlimit={self.ext_timeout_s * 1000}", fn]
+            cmds["cvc5-1.0.3"] = [CVC5_BIN, f"--tlimit={ext_s * 1000}", fn]
         procs = {nm: subprocess.Popen(c, stdout=subprocess.PIPE, stderr=subprocess.STDOUT, text=True) for nm, c in cmds.items()}
         res = {}
         t0 = time.time()
         try:
             for nm, p in procs.items():
                 try:
-                    o, _ = p.communicate(timeout=self.ext_timeout_s + 10)
+                    o, _ = p.communicate(timeout=ext_s + 10)
                 except subprocess.TimeoutExpired:
                     p.kill()
                     o = "timeout"
@@ -174,7 +187,7 @@ class Prover:
         if r == z3.sat:
             self._count("cex", "z3-5.1")
             return Result(name, "cex", total, "z3-5.1", model_to_dict(s.model()))
-        if portfolio if portfolio is not None else self.portfolio:
+        if (portfolio if portfolio is not None else self.portfolio) and self._left_ms(10**9) > 2000:
             res, dt = self._external(s)
             total += dt
             verdicts = {v[0] for v in res.values()}
